@@ -3,6 +3,7 @@ use crate::framework::Scenario;
 pub mod c10_memory;
 pub mod c11_framing;
 pub mod c12_sequence;
+pub mod c14_renewal;
 pub mod c15_handshake;
 pub mod c30_browse;
 pub mod c32_attributes;
@@ -28,6 +29,7 @@ pub fn all() -> Vec<Box<dyn Scenario>> {
     }
     v.push(Box::new(c10_memory::C10));
     v.push(Box::new(c12_sequence::C12));
+    v.push(Box::new(c14_renewal::C14));
     v.push(Box::new(c30_browse::C30));
     v.push(Box::new(c32_attributes::C32));
     v.push(Box::new(c33_swarm::C33));
